@@ -39,6 +39,14 @@ Alphabet ==
           [k |-> 5, h |-> 1, d |-> 3, a |-> X(Nil, H(4))], [k |-> 5, h |-> 2, d |-> 1, a |-> Nil],
           [k |-> 1, h |-> 1, d |-> 1, a |-> Nil], [k |-> 5, h |-> 1, d |-> 3, a |-> Nil],
           [k |-> 0, h |-> 1, d |-> 1, a |-> H(13)]}
+    [] Slice = "arithq" ->  \* the arithmetic slice with at most two operands (quick tier)
+         CmdSet({0}, {1, 2, 3}, {0, 1, 2}, {Nil}) \cup CmdSet({1, 2, 3, 4}, {1, 2}, {1, 3}, {Nil})
+         \cup CmdSet({5}, {1, 2}, {3}, {Nil})
+    [] Slice = "controlq" -> \* the control slice with fewer plain commands (quick tier)
+         CmdSet({0}, {1, 2}, {0, 1, 2}, {Nil, H(2)}) \cup CmdSet({1, 3}, {1, 2}, {3}, {Nil})
+         \cup CmdSet({1}, {1}, {3}, {H(2), H(13), Q(Nil, H(2)), Q(H(2), Nil), X(H(4), H(2)), X(Nil, H(13)),
+                                    Q(X(Nil, H(2)), H(4)), Q(Nil, Q(H(2), H(4)))})
+         \cup CmdSet({1}, {1}, {1}, {H(2), Q(Nil, H(2))}) \cup CmdSet({5}, {1}, {3}, {Nil, H(13), Q(H(2), Nil)})
     [] Slice = "tiny" ->
          CmdSet({0}, {1, 2}, {1, 3}, {Nil}) \cup CmdSet({1, 3}, {1, 2}, {1, 3}, {Nil, H(2)}) \cup CmdSet({5}, {1}, {1, 2}, {Nil})
 
